@@ -177,6 +177,11 @@ impl ApiError {
         }
     }
 
+    /// Errors of parse / prepare: the statement itself is not acceptable, whatever the wording of the message.
+    fn from_prepare(err: nervusdb_query::Error) -> Self {
+        Self::syntax(err.to_string())
+    }
+
     fn from_query_message(msg: &str) -> Self {
         let lower = msg.to_lowercase();
         if lower.contains("syntax")
@@ -428,8 +433,7 @@ fn write_query_contains_write(cypher: &str) -> ApiResult<bool> {
     if trimmed.len() >= 7 && trimmed[..7].eq_ignore_ascii_case("EXPLAIN") {
         return Ok(false);
     }
-    let parsed =
-        nervusdb_query::parse(cypher).map_err(|e| ApiError::from_query_message(&e.to_string()))?;
+    let parsed = nervusdb_query::parse(cypher).map_err(ApiError::from_prepare)?;
     Ok(query_contains_write(&parsed))
 }
 
@@ -551,7 +555,7 @@ fn execute_read_rows(db: &core::Db, cypher: &str, params: &Params) -> ApiResult<
             "ndb_query/read API does not accept write statements",
         ));
     }
-    let prepared = prepare(cypher).map_err(|e| ApiError::from_query_message(&e.to_string()))?;
+    let prepared = prepare(cypher).map_err(ApiError::from_prepare)?;
     let snapshot = db.snapshot();
     let rows = prepared
         .execute_streaming(&snapshot, params)
@@ -578,7 +582,7 @@ fn execute_write_count(db: &core::Db, cypher: &str, params: &Params) -> ApiResul
             "ndb_execute_write API expects a write statement",
         ));
     }
-    let prepared = prepare(cypher).map_err(|e| ApiError::from_query_message(&e.to_string()))?;
+    let prepared = prepare(cypher).map_err(ApiError::from_prepare)?;
     let mut txn = db.begin_write();
     #[cfg(nervusdb_verif)]
     core::verif_sched::point("capi.autocommit.between");
@@ -601,7 +605,7 @@ fn execute_write_in_txn(
             "ndb_txn_query API expects a write statement",
         ));
     }
-    let prepared = prepare(cypher).map_err(|e| ApiError::from_query_message(&e.to_string()))?;
+    let prepared = prepare(cypher).map_err(ApiError::from_prepare)?;
     let snapshot = db.snapshot();
     // A statement that fails must leave nothing behind in the caller's transaction.
     let savepoint = txn.savepoint();
